@@ -2,7 +2,7 @@
 import os
 
 from tools import common
-from tools.translate import gen_panel, gen_conn, gen_field, gen_num
+from tools.translate import gen_panel, gen_conn, gen_field, gen_num, gen_conecyl
 from tools.translate import ctables as ct
 
 if __name__ == '__main__':
@@ -10,6 +10,7 @@ if __name__ == '__main__':
     gen_conn.translate_all()
     gen_field.translate_all()
     gen_num.translate_all()
+    gen_conecyl.translate_all()
     gen = os.path.join(common.LEAN, 'CompmechVerif', 'Gen', 'CTables')
     os.makedirs(gen, exist_ok=True)
     ct.emit_all(common.REPO, gen, common.write_if_changed)
